@@ -148,6 +148,13 @@ class Prop:
         self.functions.add(function)
         rec = dict(name=name, function=function, path=path, result=res['result'], backend=res.get('backend'),
                    ms=res.get('ms'), stage=res.get('stage'))
+        tgt = os.environ.get('VERIF_REPLAY_OBLIGATION')
+        if tgt and (name + '.' + path) != tgt and self.replay_path(name + '.' + path) != self.replay_path(tgt):
+            # ./check --replay of a Layer-P record: only the recorded obligation is re-derived and triaged on the current tree
+            self.obl.append(rec)
+            return res['result'] == 'discharged'
+        if tgt:
+            self.replay_seen = True
         for k in ('atoms', 'arg_queries', 'vacuous', 'cvc5_recheck'):
             if k in res:
                 rec[k] = res[k]
@@ -420,4 +427,6 @@ class Prop:
         nv = sum(1 for o in self.obl if o.get('vacuous'))
         print('%s: obligations %d discharged %d (vacuous %d) | bounded evaluations %d | violations %d | %.1fs' % (
             self.pid, n, nd, nv, evals, self.viol, time.time() - self.t0), flush=True)
+        if os.environ.get('VERIF_REPLAY_OBLIGATION') and not getattr(self, 'replay_seen', False):
+            print('replay: the obligation %s is no longer generated on this tree' % os.environ['VERIF_REPLAY_OBLIGATION'], flush=True)
         sys.exit(1 if self.viol else 0)
